@@ -122,8 +122,10 @@ Print Assumptions C10H_mark_deleted.
 
 (** ** removing an IKE_SA for any reason removes all its kernel SAs *)
 
-(** IkeSa.delete_child_sas from ANY state and any SAD: exactly the keys of the CHILD_SAs of this IKE_SA go *)
+(** IkeSa.delete_child_sas from ANY state whose CHILD_SAs have four-byte outbound SPIs (all states the handlers
+    produce, C10H_spi4_* below) and any SAD: exactly the keys of the CHILD_SAs of this IKE_SA go *)
 Theorem C10H_teardown_any_state : forall (s : isa) (sd : sad),
+  Forall spi4 (children (co s)) ->
   kops s = [] -> fst (delete_child_sas s) <> Stuck ->
   faithful_run sd (kops (snd (delete_child_sas s))) ->
   fst (delete_child_sas s) = Ok tt
@@ -137,6 +139,7 @@ Print Assumptions C10H_teardown_any_state.
 (** ... from a state of the invariant: the other IKE_SAs keep theirs, what remains of [own] is exactly what a
     successor that is not registered yet holds (nothing if there is none) *)
 Theorem C10H_teardown : forall (s : isa) (own others : sad),
+  Forall spi4 (children (co s)) ->
   Inv s own others -> kops s = [] -> fst (delete_child_sas s) <> Stuck ->
   faithful_run (own ++ others) (kops (snd (delete_child_sas s))) ->
   apply_kops (own ++ others) (kops (snd (delete_child_sas s))) = sad_minus own (tracked_keys (co s)) ++ others
@@ -147,6 +150,78 @@ Theorem C10H_teardown : forall (s : isa) (own others : sad),
   /\ (new_sa s = None -> sad_minus own (tracked_keys (co s)) = []).
 Proof. exact teardown_inv. Qed.
 Print Assumptions C10H_teardown.
+
+(** the remaining case (no handler produces it): a tracked CHILD_SA whose outbound SPI is not four bytes long makes
+    delete_child_sas raise the generic exception at that CHILD_SA; the ones before it got their DELSAs, nothing else
+    was issued and the list of CHILD_SAs is not cleared *)
+Theorem C10H_teardown_bad_spi : forall (s : isa),
+  ~ Forall spi4 (children (co s)) -> kops s = [] -> fst (delete_child_sas s) <> Stuck ->
+  fst (delete_child_sas s) = Raise X_Other
+  /\ children (co (snd (delete_child_sas s))) = children (co s)
+  /\ Rest s (snd (delete_child_sas s))
+  /\ exists l1 ch l2, children (co s) = l1 ++ ch :: l2 /\ Forall spi4 l1 /\ ~ spi4 ch
+                      /\ DelOps (co s) l1 (kops (snd (delete_child_sas s))).
+Proof. exact teardown_bad_spi. Qed.
+Print Assumptions C10H_teardown_bad_spi.
+
+(** ** the SPI the peer chose must fit the four-byte netlink field *)
+
+(** create_child_sa with an outbound SPI that is not four bytes long: the generic exception (TypeError) before the
+    first netlink request - no kernel operation; the state is unchanged except that the jitter of a finite lifetime
+    may already have been drawn from the tape ([Stuck] only if that draw found no number) *)
+Theorem C10H_create_child_sa_bad_spi : forall (ch : child) (k : ckeyring) (ini : bool) (s : isa),
+  length (c_out ch) <> 4%nat ->
+  exists r s', create_child_sa ch k ini s = (r, s')
+    /\ (r = Raise X_Other \/ r = Stuck)
+    /\ kops s' = kops s /\ s' = s <| tape := tape s' |>
+    /\ (tape s' = tape s \/ (c_life ch <> -1 /\ exists d, tape s = d :: tape s'))
+    /\ (r = Stuck -> c_life ch <> -1 /\ forall j, hd_error (tape s) <> Some (D_num j)).
+Proof. exact create_child_sa_bad_spi. Qed.
+Print Assumptions C10H_create_child_sa_bad_spi.
+
+(** delete_child_sa likewise: nothing issued, nothing consumed, nothing changed *)
+Theorem C10H_delete_child_sa_bad_spi : forall (ch : child) (s : isa),
+  length (c_out ch) <> 4%nat -> delete_child_sa ch s = (Raise X_Other, s).
+Proof. exact delete_child_sa_bad_spi. Qed.
+Print Assumptions C10H_delete_child_sa_bad_spi.
+
+(** hence every tracked CHILD_SA (of the IKE_SA and of its unregistered successor) has a four-byte outbound SPI:
+    the property holds initially and every entry point keeps it *)
+Theorem C10H_def_spi4 : forall s,
+  Spi4 s <->
+  (forall ch, In ch (children (co s)) -> length (c_out ch) = 4%nat)
+  /\ (forall n, new_sa s = Some n -> forall ch, In ch (children n) -> length (c_out ch) = 4%nat).
+Proof. exact Spi4_unfold. Qed.
+Print Assumptions C10H_def_spi4.
+Theorem C10H_spi4_initially : forall s, children (co s) = [] -> new_sa s = None -> Spi4 s.
+Proof. exact Spi4_no_children. Qed.
+Print Assumptions C10H_spi4_initially.
+Theorem C10H_spi4_request : forall (E : env) (s : isa) (m : pmsg body),
+  Spi4 s -> st (co (fst (h_request E s m))) <> -1 -> Spi4 (fst (h_request E s m)).
+Proof. exact h_request_spi4. Qed.
+Print Assumptions C10H_spi4_request.
+Theorem C10H_spi4_response : forall (E : env) (s : isa) (m : pmsg body),
+  Spi4 s -> st (co (fst (h_response E s m))) <> -1 -> Spi4 (fst (h_response E s m)).
+Proof. exact h_response_spi4. Qed.
+Print Assumptions C10H_spi4_response.
+Theorem C10H_spi4_trigger : forall (s : isa) (e : event),
+  Spi4 s -> st (co (fst (h_trigger s e))) <> -1 -> Spi4 (fst (h_trigger s e)).
+Proof. exact h_trigger_spi4. Qed.
+Print Assumptions C10H_spi4_trigger.
+Theorem C10H_spi4_gen_dpd : forall (s : isa),
+  Spi4 s -> st (co (fst (lift_gen generate_dpd_request s))) <> -1 -> Spi4 (fst (lift_gen generate_dpd_request s)).
+Proof. exact gen_dpd_spi4. Qed.
+Print Assumptions C10H_spi4_gen_dpd.
+Theorem C10H_spi4_gen_delete_ike : forall (s : isa),
+  Spi4 s -> st (co (fst (lift_gen generate_delete_ike_sa_request s))) <> -1 ->
+  Spi4 (fst (lift_gen generate_delete_ike_sa_request s)).
+Proof. exact gen_delete_ike_spi4. Qed.
+Print Assumptions C10H_spi4_gen_delete_ike.
+Theorem C10H_spi4_gen_rekey_ike : forall (s : isa),
+  Spi4 s -> st (co (fst (lift_gen generate_rekey_ike_sa_request s))) <> -1 ->
+  Spi4 (fst (lift_gen generate_rekey_ike_sa_request s)).
+Proof. exact gen_rekey_ike_spi4. Qed.
+Print Assumptions C10H_spi4_gen_rekey_ike.
 
 (** ** (a) IKE_SA rekey hands the CHILD_SAs over without touching the kernel *)
 Theorem C10H_handover_responder : forall (E : env) (m : pmsg body) (s : isa),
@@ -264,6 +339,24 @@ Theorem C10H_example_refused_spi_of_other_ike_sa :
   children (co s') = [Example.ch1].
 Proof. exact Example.ex_refused_run. Qed.
 Print Assumptions C10H_example_refused_spi_of_other_ike_sa.
+
+(** an SPI that does not fit the four-byte netlink field: generic exception before any netlink request (answer
+    INVALID_SYNTAX), nothing issued, nothing tracked; and a state tracking such a CHILD_SA - which no handler
+    produces - is where delete_child_sas would stop half-way *)
+Theorem C10H_example_bad_spi :
+  let r := h_request Example.E0 (Example.s_new []) (Example.m_new [0;0;8]%N) in
+  st (co (fst r)) <> -1 /\ kops (fst r) = [] /\ children (co (fst r)) = [Example.ch1] /\
+  snd r = HErr ([], [P_NOTIFY PROTO_NONE N_INVALID_SYNTAX [] []]) /\ Spi4 (fst r).
+Proof. exact Example.ex_bad_spi_run. Qed.
+Print Assumptions C10H_example_bad_spi.
+Theorem C10H_example_bad_spi_teardown :
+  let bad := Example.ch1 <| c_out := [7]%N |> <| c_in := [0;0;0;3]%N |> in
+  let s0 := mk_isa (Example.core0 ST_ESTABLISHED [Example.ch1; bad]) None None 0 [D_verdict true; D_verdict true] [] in
+  fst (delete_child_sas s0) = Raise X_Other /\
+  kops (snd (delete_child_sas s0)) = [K_del 20 50 [0;0;0;2]%N true; K_del 10 50 [0;0;0;1]%N true] /\
+  children (co (snd (delete_child_sas s0))) = [Example.ch1; bad] /\ ~ Spi4 s0.
+Proof. exact Example.ex_bad_spi_teardown. Qed.
+Print Assumptions C10H_example_bad_spi_teardown.
 
 Theorem C10H_example_rekey :
   let s' := fst (h_request Example.E0 Example.s_rekey Example.m_rekey) in
